@@ -1,6 +1,7 @@
 //! Correspondence harness (native engines). Runs the real sycamore code on generated cases and
 //! writes, per engine, the request lines for the Lean driver, the implementation's canonical
 //! observations and the verdicts of the implementation-side oracles.
+mod isdyn;
 mod num;
 mod route;
 mod util;
@@ -47,6 +48,7 @@ fn main() {
     match args.engine.as_str() {
         "route" => route::run(&args),
         "num" => num::run(&args),
+        "isdyn" => isdyn::run(&args),
         e => {
             eprintln!("unknown engine {e}");
             std::process::exit(2)
